@@ -176,7 +176,8 @@ def expected_after(prev, op, base, actor_idx):
         sid = base_snaps[op.get("which", 0) % len(base_snaps)]["id"]
         exp["ids"] = [i for i in prev_ids if i != sid]
         if prev["current_id"] == sid:
-            exp["current"] = "repointed"
+            # repointed to the most recently COMMITTED survivor (list order = commit order), whatever the timestamps say
+            exp["current"] = exp["ids"][-1] if exp["ids"] else None
     elif kind == "set_prop":
         exp["props"][f"p{actor_idx}"] = f"v{actor_idx}"
     return exp
@@ -241,7 +242,7 @@ def check_refinement(world, base, ops, run, topo):
         else:
             if ids != exp["ids"]:
                 problem = f"snapshot list {ids} != expected {exp['ids']} (previous {[s['id'] for s in prev['snapshots']]})"
-            elif exp["current"] != "repointed" and v["current_id"] != exp["current"]:
+            elif v["current_id"] != exp["current"] and not (exp["current"] is None and v["current_id"] in (None, -1)):
                 problem = f"current {v['current_id']} != expected {exp['current']}"
             elif v["last_seq"] != prev["last_seq"]:
                 problem = f"last_sequence_number changed {prev['last_seq']} -> {v['last_seq']}"
